@@ -15,3 +15,4 @@ import TarsModel.Props.C05
 import TarsModel.Props.C06
 import TarsModel.Props.C10
 import TarsModel.Props.C12
+import TarsModel.Props.C11
